@@ -74,6 +74,9 @@ class Delegation:
         self.pool_id = pool_id
         if aformat != DelegationFormat.SinglePool:
             assert pool_id is not None
+            if pool_id == ABCPropertyGraphConstants.SINGLE_POOL_NAME:
+                # this name is how a single-element delegation is written in JSON, a pool cannot carry it
+                raise DelegationException(msg=f'Pool name {pool_id} is reserved for single-element delegations')
 
     def get_delegation_type(self) -> DelegationType:
         return self.type
@@ -324,6 +327,8 @@ class Pool:
         """
         assert atype is not None
         assert pool_id is not None
+        if pool_id == ABCPropertyGraphConstants.SINGLE_POOL_NAME:
+            raise PoolException(msg=f'Pool name {pool_id} is reserved for single-element delegations')
         self.type = atype
         self.on_ = defined_on
         self.delegation_id = delegation_id
@@ -505,6 +510,8 @@ class Pools:
         if pool.get_pool_type() != self.pool_type:
             raise PoolException(msg=f'Pool type {pool.get_pool_type()} does not match Pools '
                                     f'container type {self.pool_type}')
+        if pool.get_pool_id() == ABCPropertyGraphConstants.SINGLE_POOL_NAME:
+            raise PoolException(msg=f'Pool name {pool.get_pool_id()} is reserved for single-element delegations')
         self.pool_by_id[pool.get_pool_id()] = pool
 
     def incorporate_delegation(self, *, node_id: str, deleg: Delegations):
